@@ -473,7 +473,11 @@ void gen_history_task(Gen &g, Task &t, const HistCfg &cfg) {
       int style = (int)r.below(10);
       std::vector<std::string> prog;
       int rej = ((int)r.below(100) < cfg.reject_pct) ? (int)r.below(3) : -1;
-      if (style < 4) {
+      if (r.chance(1, 14)) {
+        // a text without any instruction (empty, or comments / labels / directives only): nothing may be written,
+        // wherever the offset stands - also at the very end of the buffer or on a buffer of length 0
+        for (int q = (int)r.below(4); q > 0; q--) prog.push_back(pick_filler(r));
+      } else if (style < 4) {
         prog = gen_program(r, (int)r.range(1, 6), r.chance(1, 3) ? 4 : 0, rej);
       } else if (style < 8) {
         // steer the end of the program towards the reserve boundary
@@ -1128,6 +1132,13 @@ std::string pad_comment(long n, bool nl) {
 }
 
 std::string file_of_size(Rng &r, long size, bool final_nl, bool with_reject) {
+  if (!final_nl && size > 0 && r.chance(2, 3)) {
+    // the file ends in an instruction whose last character is the last byte of the file (every byte of it counts),
+    // now and then followed by a blank
+    std::string last = pick_instr(r);
+    if (r.chance(1, 6)) last += r.coin() ? " " : "\t";
+    if ((long)last.size() <= size) return file_of_size(r, size - (long)last.size(), true, with_reject) + last;
+  }
   std::string d;
   int guard = 0;
   bool rejected = !with_reject;
